@@ -19,7 +19,45 @@ macro_rules! six_shapes {
     }};
 }
 
+/// Second, implementation-level oracle (DESIGN §8 table): at widths 64 and 128 the primitive integer
+/// intrinsics must agree with the `Uint` result. A disagreement is printed as an outcome that matches
+/// neither the model nor the spec.
+fn native(op: &str, bits: usize, x: u128, got: &str) -> Option<String> {
+    let m: u128 = if bits == 64 { u64::MAX as u128 } else { u128::MAX };
+    let lz = |v: u128| (v.leading_zeros() as usize) - (128 - bits);
+    let want = match op {
+        "not" | "notop" | "notref" => format!("{:x}", !x & m),
+        "rev" => format!("{:x}", x.reverse_bits() >> (128 - bits)),
+        "lz" => format!("{:x}", lz(x)),
+        "lo" => format!("{:x}", lz(!x & m)),
+        "tz" => format!("{:x}", if x == 0 { bits } else { x.trailing_zeros() as usize }),
+        "to" => format!("{:x}", (x.trailing_ones() as usize).min(bits)),
+        "cnt1" => format!("{:x}", x.count_ones()),
+        "cnt0" => format!("{:x}", bits - x.count_ones() as usize),
+        "bitlen" => format!("{:x}", bits - lz(x)),
+        "ispow2" => b(x.is_power_of_two()).to_string(),
+        "cnpow2" => match x.checked_next_power_of_two() {
+            Some(v) if v <= m => format!("some {v:x}"),
+            _ => "none".to_string(),
+        },
+        _ => return None,
+    };
+    if want == got { None } else { Some(format!("native-oracle-mismatch uint={got} native={want}")) }
+}
+
 fn run<const B: usize, const L: usize>(p: &[&str]) -> String {
+    let r = run_inner::<B, L>(p);
+    if (B == 64 || B == 128) && p.len() == 3 {
+        if let Ok(x) = u128::from_str_radix(p[2], 16) {
+            if let Some(bad) = native(p[0], B, x, &r) {
+                return bad;
+            }
+        }
+    }
+    r
+}
+
+fn run_inner<const B: usize, const L: usize>(p: &[&str]) -> String {
     type U<const B: usize, const L: usize> = Uint<B, L>;
     let op = p[0];
     let a: U<B, L> = u(p[2]);
